@@ -155,6 +155,21 @@ CLAIMED = {
         "under the caller's locale (C15_newlocale_failure); the WIN32 branch is not modelled.",
    technique="Coq proof (state-machine case analysis) + correspondence under real locales",
    ref="5 (C15)"),
+ "C13": dict(
+   text="PARTIAL. Proved (Properties_C13.v, closed under the global context, over the census tools/gen_census.py "
+        "regenerates from /repo with clang's AST on every run): every reference to malloc/calloc/realloc/strdup in "
+        "lib/*.c lies inside one of the four wrappers of util.c whose bodies test the result and call "
+        "libconfig_fatal_error; hence for every sequence of allocation requests of the C library, of any length, and "
+        "every k, failing the k-th request invokes the fatal-error function at that request (induction over the trace). "
+        "What the C code does with an unchecked NULL is not in the model; it is decided by real fault injection on every "
+        "run: the library's own requests are redirected at compile time, counted per scenario, and each k-th one is "
+        "made to fail in a child process (handler must run at exactly that request; no crash, no normal return), plus "
+        "pairs of failures with a handler that recovers by longjmp.",
+   note="Known finding F19 (printed as KNOWN-FINDING): the C++ exception classes copy strings with a bare strdup "
+        "(C13_cpp_exception_strdup_refuted); operator new throws by itself. The flex/bison skeletons allocate "
+        "through libconfig_yyalloc / YYMALLOC = libconfig_malloc (seen by the census as wrapped).",
+   technique="Coq proof over a translator-generated census (induction over allocation traces) + exhaustive fault injection (partial)",
+   ref="5 (C13)"),
 }
 
 REASON_PENDING = "not decided in the committed state of this round: the Coq theorem for this property is not yet in the tree, and a property is never claimed on testing alone (DESIGN.md section 11)"
